@@ -233,6 +233,53 @@ func nodeFromXML(x string) *spsim.Node {
 	return etreeToNode(d.Root())
 }
 
+// c09PairsWithMissingChild (quick tier's share of the pairwise edits): one child of the document element is deleted
+// and every single edit is applied on top of that - the pairs in which a step that reports about a defect (of a
+// date, a number, a name ...) meets an element that is not there.
+func c09PairsWithMissingChild(r *core.Run, idx int, rng *rand.Rand) {
+	const wl = "edit_pairs_with_a_missing_child"
+	bases := c09Bases(rand.New(rand.NewSource(11)))
+	b := bases[idx%len(bases)]
+	e := c09World()
+	e.W.NoLog = true
+	var firsts []edit
+	i := 0
+	b.Root.Walk(func(p *spsim.Node, _ int, el *spsim.Node) {
+		if p == b.Root {
+			firsts = append(firsts, edit{i, -1, "delete"})
+		}
+		i++
+	})
+	n := 0
+	for _, e1 := range firsts {
+		n1 := applyEdit(b.Root, e1)
+		if n1 == nil {
+			continue
+		}
+		for _, e2 := range enumerateEdits(n1) {
+			n2 := applyEdit(n1, e2)
+			if n2 == nil {
+				continue
+			}
+			x := n2.Render("")
+			if b.Sign {
+				if sx, err := spsim.SignEnveloped(x, keys.Get("sp0"), spsim.XMLSignOpts{Alg: spsim.AlgRSASHA256}); err == nil {
+					x = sx
+				}
+			}
+			call := b.Send(e, x)
+			n++
+			if call.Panic != "" {
+				r.Violate(core.Violation{Clause: "panic", Class: b.Name, Reason: firstLine(call.Panic) + " @ " + panicSite(call.Stack), Workload: wl, Index: idx,
+					Case: map[string]any{"base": b.Name, "edit": e1.String() + "+" + e2.String(), "xml": clipS(x, 3000)}, Observed: call.Describe()})
+			}
+		}
+	}
+	r.EvalBulk(int64(n), int64(n))
+	r.Count("requests", int64(n))
+	r.Count("edit_pairs_with_a_missing_child", int64(n))
+}
+
 func c09Edits(pairs bool) func(r *core.Run, idx int, rng *rand.Rand) {
 	return func(r *core.Run, idx int, rng *rand.Rand) {
 		wl := "single_edits"
@@ -1100,6 +1147,10 @@ func init() {
 				{Name: "storage_calls_outliving_the_request", N: c.Pick(4, 20), Fn: c09SlowStorage},
 				{Name: "names_in_other_scripts", N: 4, Fn: c09Names},
 				{Name: "many_oversized_then_regular", N: 1, Fn: c09ManyOversized},
+			}
+			if !c.Thorough {
+				wls = append(wls, core.Workload{Name: "edit_pairs_with_a_missing_child", N: n, Fn: c09PairsWithMissingChild})
+				r.Require("edit_pairs_with_a_missing_child", 5000)
 			}
 			if c.Thorough {
 				wls = append(wls, core.Workload{Name: "edit_pairs", N: n * 16, Fn: c09Edits(true)})
